@@ -16,15 +16,16 @@ import (
 )
 
 type toCase struct {
-	Kind      string `json:"kind"`  // overrun | fits | each-full
-	Shape     string `json:"shape"` // sleep | busy | ignore-int | subshell | pipeline
-	Where     string `json:"where"` // command | before | after
-	N         int    `json:"commands"`
-	Pos       int    `json:"pos"`
-	Allow     bool   `json:"allow_failure"`
-	TimeoutMs int    `json:"timeout_ms"`
-	Variation bool   `json:"in_second_variation,omitempty"` // the task has two variations, only the second one overruns
-	Earlier   bool   `json:"earlier_tolerated_failure,omitempty"` // allow_failure task whose first command exits non-zero before the overrun
+	Kind        string `json:"kind"`  // overrun | fits | each-full
+	Shape       string `json:"shape"` // sleep | busy | ignore-int | subshell | pipeline
+	Where       string `json:"where"` // command | before | after
+	N           int    `json:"commands"`
+	Pos         int    `json:"pos"`
+	Allow       bool   `json:"allow_failure"`
+	TimeoutMs   int    `json:"timeout_ms"`
+	Variation   bool   `json:"in_second_variation,omitempty"`       // the task has two variations, only the second one overruns
+	Interactive bool   `json:"interactive,omitempty"`               // interactive task; the runner's stdin is a pipe that stays open and silent
+	Earlier     bool   `json:"earlier_tolerated_failure,omitempty"` // allow_failure task whose first command exits non-zero before the overrun
 }
 
 func overrunCmd(shape, pidfile string, timeoutMs int) string {
@@ -139,8 +140,25 @@ func runTimeoutCase(a args, tcx toCase, idx int, confirm bool) (suspect string) 
 	}
 	out.Begin(fmt.Sprintf("timeout#%d %s", idx, h.MustJSON(tcx)))
 	r := newQuietRunner()
+	if tcx.Interactive {
+		pr, pw, perr := os.Pipe()
+		if perr == nil {
+			defer pw.Close()
+			defer pr.Close()
+			r.Stdin = pr
+			t.Interactive = true
+		}
+	}
 	t0 := time.Now()
-	err := r.Run(t)
+	var err error
+	ret := make(chan error, 1)
+	go func() { ret <- r.Run(t) }()
+	select {
+	case err = <-ret:
+	case <-time.After(to + 2*time.Second + 25*time.Second):
+		out.Viol("C13", "run-did-not-return-after-timeout/"+tcx.Shape, fmt.Sprintf("Run has not returned %s after a timeout of %s expired (interactive=%v)", 27*time.Second, to, tcx.Interactive), map[string]interface{}{"case": tcx})
+		return ""
+	}
 	dur := time.Since(t0)
 	lockedFinish(r.Finish)
 	got := strings.Fields(h.ReadFile(trace))
@@ -254,6 +272,11 @@ func modeTimeout(a args) {
 				n := rnd.Range(1, 3)
 				cases = append(cases, toCase{Kind: "overrun", Shape: shapes[rnd.Intn(len(shapes))], Where: []string{"command", "command", "before", "after"}[rnd.Intn(4)], N: n, Pos: rnd.Intn(n), Allow: rnd.Bool(), TimeoutMs: rnd.Range(100, 1000)})
 			}
+		}
+	}
+	for _, shape := range []string{"sleep", "ignore-int", "pipeline"} {
+		for _, where := range []string{"command", "before"} {
+			cases = append(cases, toCase{Kind: "overrun", Shape: shape, Where: where, N: 2, Pos: 0, TimeoutMs: 300, Interactive: true})
 		}
 	}
 	var mine []int
